@@ -103,7 +103,9 @@ func v1Random(g *valGen, kind string) (v1.Claims, *signer) {
 			roles = append(roles, r)
 		}
 	}
-	return cl, g.kr.by[roles[g.rng.Intn(len(roles))]]
+	sg := g.kr.by[roles[g.rng.Intn(len(roles))]]
+	g.coincide(cl, sg.pub, cd.Subject)
+	return cl, sg
 }
 
 func runC19(c *Ctx) {
